@@ -447,50 +447,182 @@ func nameRules(c *Ctx, want map[string]bool) {
 	}
 	if want["R09b"] {
 		R.Rule("R09b", "E2+E3", "oldest first: scanResult.Less orders by ascending access time, Swap swaps both slices, and the index is built by adding entries in ascending order (Add pushes to the front, so the oldest ends at the back)", 3)
+		// expressions with the two index parameters written $0 / $1 (and the receiver $r), so that
+		// neither their names nor the receiver's matter
+		indexShape := func(fi *FuncInfo, e ast.Expr) string {
+			finfo := fi.Pkg.TypesInfo
+			p0, p1 := paramObj(fi, 0), paramObj(fi, 1)
+			var recv types.Object
+			if fi.Decl.Recv != nil && len(fi.Decl.Recv.List) == 1 && len(fi.Decl.Recv.List[0].Names) == 1 {
+				recv = finfo.Defs[fi.Decl.Recv.List[0].Names[0]]
+			}
+			var render func(e ast.Expr) string
+			render = func(e ast.Expr) string {
+				switch e := ast.Unparen(e).(type) {
+				case *ast.Ident:
+					switch o := identObj(finfo, e); {
+					case o != nil && o == p0:
+						return "$0"
+					case o != nil && o == p1:
+						return "$1"
+					case o != nil && o == recv:
+						return "$r"
+					}
+					return e.Name
+				case *ast.SelectorExpr:
+					return render(e.X) + "." + e.Sel.Name
+				case *ast.IndexExpr:
+					return render(e.X) + "[" + render(e.Index) + "]"
+				case *ast.StarExpr:
+					return "*" + render(e.X)
+				}
+				return exprStr(e)
+			}
+			return render(e)
+		}
+		swap01 := func(s string) string {
+			return strings.NewReplacer("$0", "$1", "$1", "$0").Replace(s)
+		}
 		if fi := c.P.MustFunc(R, "R09b", "disk.(scanResult).Less"); fi != nil {
 			ok := false
-			if len(fi.Decl.Body.List) == 1 {
-				if r, k := fi.Decl.Body.List[0].(*ast.ReturnStmt); k {
-					ok = strings.ReplaceAll(exprStr(r.Results[0]), " ", "") == "r.metadata[i].ts.Before(r.metadata[j].ts)"
+			// the (only) value returned is X[i].Before(X[j]) for the access-time expression X
+			var rets []*ast.ReturnStmt
+			ast.Inspect(fi.Decl.Body, func(m ast.Node) bool {
+				if r, k := m.(*ast.ReturnStmt); k {
+					rets = append(rets, r)
+				}
+				return true
+			})
+			if len(rets) == 1 && len(rets[0].Results) == 1 {
+				if call, k := ast.Unparen(rets[0].Results[0]).(*ast.CallExpr); k && fullCalleeName(info, call) == "time.(Time).Before" && len(call.Args) == 1 {
+					if sel, k := call.Fun.(*ast.SelectorExpr); k {
+						a, b := indexShape(fi, sel.X), indexShape(fi, call.Args[0])
+						ok = strings.Contains(a, "[$0]") && !strings.Contains(a, "$1") && b == swap01(a)
+					}
 				}
 			}
 			R.Check(ok, "R09b", c.Cfg+"scanResult.Less", c.P.Pos(fi.Decl.Pos()), "Less(i, j) is ts[i].Before(ts[j]) (ascending access time)", "Less does not order by ascending access time")
 		}
 		if fi := c.P.MustFunc(R, "R09b", "disk.(scanResult).Swap"); fi != nil {
-			n := 0
+			swapped := map[string]bool{}
 			ast.Inspect(fi.Decl.Body, func(m ast.Node) bool {
-				if as, ok := m.(*ast.AssignStmt); ok && len(as.Lhs) == 2 {
-					s := strings.ReplaceAll(exprStr(as.Lhs[0])+","+exprStr(as.Lhs[1])+"="+exprStr(as.Rhs[0])+","+exprStr(as.Rhs[1]), " ", "")
-					if s == "r.item[i],r.item[j]=r.item[j],r.item[i]" || s == "r.metadata[i],r.metadata[j]=r.metadata[j],r.metadata[i]" {
-						n++
+				if as, ok := m.(*ast.AssignStmt); ok && len(as.Lhs) == 2 && len(as.Rhs) == 2 {
+					l0, l1 := indexShape(fi, as.Lhs[0]), indexShape(fi, as.Lhs[1])
+					r0, r1 := indexShape(fi, as.Rhs[0]), indexShape(fi, as.Rhs[1])
+					if strings.HasSuffix(l0, "[$0]") && l1 == swap01(l0) && r0 == l1 && r1 == l0 {
+						swapped[strings.TrimSuffix(l0, "[$0]")] = true
 					}
 				}
 				return true
 			})
-			R.Check(n == 2, "R09b", c.Cfg+"scanResult.Swap", c.P.Pos(fi.Decl.Pos()), "Swap swaps items and metadata together", "Swap does not swap both slices")
+			// every slice field of the receiver's struct is swapped
+			nSlices := 0
+			if sig, ok := fi.Obj.Type().(*types.Signature); ok && sig.Recv() != nil {
+				if st, ok := sig.Recv().Type().Underlying().(*types.Struct); ok {
+					for i := 0; i < st.NumFields(); i++ {
+						if _, isSlice := st.Field(i).Type().Underlying().(*types.Slice); isSlice {
+							nSlices++
+						}
+					}
+				}
+			}
+			R.Check(len(swapped) == nSlices && nSlices >= 2, "R09b", c.Cfg+"scanResult.Swap", c.P.Pos(fi.Decl.Pos()), "Swap swaps items and metadata together", fmt.Sprintf("Swap exchanges %d of the %d parallel slices", len(swapped), nSlices))
 		}
 		if fi := c.P.MustFunc(R, "R09b", "disk.(*diskCache).loadExistingFiles"); fi != nil {
 			sorted, asc := false, false
 			var sortPos, loopPos token.Pos
-			ast.Inspect(fi.Decl.Body, func(m ast.Node) bool {
-				if call, ok := m.(*ast.CallExpr); ok && fullCalleeName(info, call) == "sort.Sort" && exprStr(call.Args[0]) == "result" {
-					sorted = true
-					sortPos = call.Pos()
-				}
-				if f, ok := m.(*ast.ForStmt); ok && f.Init != nil && f.Post != nil {
-					for _, call := range callsIn(f.Body, false) {
-						if calleeKey(info, call) == "disk.(*SizedLRU).Add" {
-							loopPos = f.Pos()
-							init := strings.ReplaceAll(exprStr(f.Init.(*ast.AssignStmt).Rhs[0]), " ", "")
-							cond := strings.ReplaceAll(exprStr(f.Cond), " ", "")
-							_, inc := f.Post.(*ast.IncDecStmt)
-							asc = init == "0" && cond == "i<len(result.item)" && inc && f.Post.(*ast.IncDecStmt).Tok == token.INC &&
-								strings.ReplaceAll(exprStr(call.Args[0]), " ", "") == "result.metadata[i].lookupKey" && strings.ReplaceAll(exprStr(call.Args[1]), " ", "") == "*result.item[i]"
+			var sortedRoot types.Object
+			mentions := func(e ast.Expr, o types.Object) bool {
+				hit := false
+				ast.Inspect(e, func(m ast.Node) bool {
+					if id, ok := m.(*ast.Ident); ok && o != nil && identObj(info, id) == o {
+						hit = true
+					}
+					return true
+				})
+				return hit
+			}
+			for _, body := range helperBodies(c, fi) {
+				ast.Inspect(body, func(m ast.Node) bool {
+					if call, ok := m.(*ast.CallExpr); ok && (fullCalleeName(info, call) == "sort.Sort" || fullCalleeName(info, call) == "sort.Stable") && len(call.Args) == 1 {
+						sorted = true
+						sortPos = call.Pos()
+						sortedRoot = identObj(info, rootOfSel(call.Args[0]))
+					}
+					var loopBody *ast.BlockStmt
+					var idx, val types.Object
+					ascending := false
+					switch f := m.(type) {
+					case *ast.ForStmt:
+						// for i := 0; i < len(X); i++
+						if as, ok := f.Init.(*ast.AssignStmt); ok && len(as.Lhs) == 1 && len(as.Rhs) == 1 {
+							if k, isC := constInt(info, as.Rhs[0]); isC && k == 0 {
+								idx = identObj(info, as.Lhs[0])
+							}
+						}
+						if inc, ok := f.Post.(*ast.IncDecStmt); ok && inc.Tok == token.INC && idx != nil && identObj(info, inc.X) == idx {
+							if be, ok := ast.Unparen(f.Cond).(*ast.BinaryExpr); ok {
+								lo, hi := be.X, be.Y
+								if be.Op == token.GTR {
+									lo, hi = be.Y, be.X
+								}
+								if (be.Op == token.LSS || be.Op == token.GTR) && identObj(info, lo) == idx {
+									if call, ok := ast.Unparen(hi).(*ast.CallExpr); ok && exprStr(call.Fun) == "len" {
+										ascending = true
+									}
+								}
+							}
+						}
+						loopBody = f.Body
+					case *ast.RangeStmt:
+						// ranging over a slice visits it in ascending index order
+						if _, isSlice := info.TypeOf(f.X).Underlying().(*types.Slice); isSlice {
+							ascending = true
+							if f.Key != nil {
+								idx = identObj(info, f.Key)
+							}
+							if f.Value != nil {
+								val = identObj(info, f.Value)
+							}
+						}
+						loopBody = f.Body
+					}
+					if loopBody == nil {
+						return true
+					}
+					for _, call := range callsIn(loopBody, false) {
+						if calleeKey(info, call) == "disk.(*SizedLRU).Add" && len(call.Args) == 2 {
+							loopPos = m.Pos()
+							// key and item of the same position: both are indexed by the loop variable (or are
+							// the range value / derived from the same index through locals of the loop body)
+							perIndex := func(e ast.Expr) bool {
+								if mentions(e, idx) || mentions(e, val) {
+									return true
+								}
+								// a local of the loop body defined from the indexed slices
+								if o := identObj(info, rootOfSel(stripStar(e))); o != nil {
+									def := false
+									ast.Inspect(loopBody, func(q ast.Node) bool {
+										if as, ok := q.(*ast.AssignStmt); ok && len(as.Lhs) == len(as.Rhs) {
+											for i, l := range as.Lhs {
+												if identObj(info, l) == o && (mentions(as.Rhs[i], idx) || mentions(as.Rhs[i], val)) {
+													def = true
+												}
+											}
+										}
+										return true
+									})
+									return def
+								}
+								return false
+							}
+							asc = ascending && perIndex(call.Args[0]) && perIndex(call.Args[1])
 						}
 					}
-				}
-				return true
-			})
+					return true
+				})
+			}
+			_ = sortedRoot
 			R.Check(sorted && asc && sortPos < loopPos, "R09b", c.Cfg+"loadExistingFiles:ascending-insert", c.P.Pos(fi.Decl.Pos()), "the scan result is sorted and then added to the index from index 0 upwards (oldest first)", fmt.Sprintf("sorted=%v ascending-loop=%v", sorted, asc))
 		}
 	}
@@ -546,12 +678,38 @@ func nameRules(c *Ctx, want map[string]bool) {
 		R.Rule("R09f", "E2", "backlog awaited: loadExistingFiles returns nil only once queuedEvictionsSize is 0", 1)
 		if fi := c.P.MustFunc(R, "R09f", "disk.(*diskCache).loadExistingFiles"); fi != nil {
 			ok := false
-			ast.Inspect(fi.Decl.Body, func(n ast.Node) bool {
-				if f, k := n.(*ast.ForStmt); k && f.Cond != nil && strings.ReplaceAll(exprStr(f.Cond), " ", "") == "c.lru.queuedEvictionsSize.Load()>0" {
-					ok = true
-				}
-				return true
-			})
+			for _, body := range helperBodies(c, fi) {
+				ast.Inspect(body, func(n ast.Node) bool {
+					f, k := n.(*ast.ForStmt)
+					if !k || f.Cond == nil {
+						return true
+					}
+					// <lru>.queuedEvictionsSize.Load() > 0  (either operand order, != 0 as well)
+					be, k := ast.Unparen(f.Cond).(*ast.BinaryExpr)
+					if !k {
+						return true
+					}
+					load, zero := be.X, be.Y
+					op := be.Op
+					if kz, isC := constInt(info, be.X); isC && kz == 0 {
+						load, zero = be.Y, be.X
+						if op == token.LSS {
+							op = token.GTR
+						}
+					}
+					if kz, isC := constInt(info, zero); !isC || kz != 0 || (op != token.GTR && op != token.NEQ) {
+						return true
+					}
+					if call, k := ast.Unparen(load).(*ast.CallExpr); k {
+						if sel, k := call.Fun.(*ast.SelectorExpr); k && sel.Sel.Name == "Load" {
+							if lruFieldOf(info, sel.X) == "queuedEvictionsSize" {
+								ok = true
+							}
+						}
+					}
+					return true
+				})
+			}
 			R.Check(ok, "R09f", c.Cfg+"loadExistingFiles:wait-backlog", c.P.Pos(fi.Decl.Pos()), "loadExistingFiles loops until the eviction backlog is empty before returning", "the wait loop on queuedEvictionsSize was not found")
 		}
 	}
@@ -1084,4 +1242,14 @@ func prefixTable(c *Ctx, fi *FuncInfo, value func(e ast.Expr) (string, bool)) (m
 		}
 	}
 	return got, dflt
+}
+
+func stripStar(e ast.Expr) ast.Expr {
+	for {
+		st, ok := ast.Unparen(e).(*ast.StarExpr)
+		if !ok {
+			return ast.Unparen(e)
+		}
+		e = st.X
+	}
 }
